@@ -480,6 +480,15 @@ func (k Keeper) MakeConsumerGenesis(
 		// set the counterparty connection ID
 		counterpartyConnectionId = connectionEnd.Counterparty.ConnectionId
 
+		// a light client can be the CCV client of at most one consumer chain: channels and packets are
+		// attributed to consumers through the client they are built on
+		if otherConsumerId, found := k.GetClientIdToConsumerId(ctx, clientId); found && otherConsumerId != consumerId {
+			return gen, errorsmod.Wrapf(types.ErrInvalidConsumerClient,
+				"client(%s) of connection(%s) is already used by consumer chain with consumer id: %s",
+				clientId, initializationRecord.ConnectionId, otherConsumerId,
+			)
+		}
+
 		k.SetConsumerClientId(ctx, consumerId, clientId)
 
 		// Set minimum height for equivocation evidence from this consumer chain
